@@ -12,6 +12,7 @@ Clauses (each one is a sentence of the property statement):
                   attribute value/annotation, alias target_path, module filepath; expressions compared by str()
   names-resolve   every ExprName of the flat iteration of every expression has the same canonical_path before and
                   after; same for the canonical_path of keyword arguments (`ExprKeyword`)
+  minimal-is-enough  the tree reloaded from the minimal dump has the original's full dump (no docstring parser)
   cli             `griffe dump` (in-process griffe.main, stdout / -o file / -o '{package}.json') emits, per requested
                   package, exactly json.loads(module.as_json(full=f)) of an identically configured loader; exit code 0
 """
@@ -95,7 +96,7 @@ def load_generated(case, root: Path, name: str = G.PKG, pkg=None):
     import griffe
 
     pkg = pkg if pkg is not None else case["pkg"]
-    info = G.render_package(pkg, root, style=case.get("parser"), name=name)
+    info = G.render_package(pkg, root, style=case.get("parser"), name=name, steer=case.get("steer", ()))
     dynamic = case.get("agent") == "dynamic"
     if dynamic and not pkg["importable"]:
         raise _Skip("not-importable")
@@ -370,6 +371,27 @@ def roundtrip(module, root: str | None, parser, forms=(False, True), steer=()) -
                 fails.append(Fail("equivalent-tree", f"{form}:summary-raises:{type(exc).__name__}", f"walking the tree reloaded from the {form} dump raised {exc!r}"))
                 continue
             fails.extend(_compare_summaries(before, after, form, root))
+    # the tree reloaded from the minimal form serialises to the identical JSON "in both minimal and full form": its full
+    # dump must equal the original full dump (docs: "the JSON will only contain the fields required to load it back";
+    # tests/test_encoders.py::test_minimal_data_is_enough). Only without a docstring parser: the parser is configuration,
+    # not data, and is not part of either form.
+    if not parser and dumps.get("min") is not None and dumps.get("full") is not None and not any(f.clause == "reload-total" for f in fails):
+        try:
+            again = cls.from_json(dumps["min"])
+            J3 = call("minimal-is-enough", again.as_json, full=True, what="as_json(full=True) of the tree reloaded from the minimal dump")
+        except GriffeRaised as gr:
+            fails.append(gr.fail)
+            J3 = None
+        if J3 is not None and J3 != dumps["full"]:
+            d = first_diff(json.loads(dumps["full"]), json.loads(J3))
+            path, a, b = d if d else (("<text-only>",), None, None)
+            fails.append(
+                Fail(
+                    "minimal-is-enough",
+                    _kind_of(path),
+                    f"full dump of the tree reloaded from the minimal dump differs from the original full dump at {'.'.join(path)}: original {_short(a, root)} / reloaded {_short(b, root)}",
+                )
+            )
     return fails, dumps
 
 
@@ -410,6 +432,7 @@ def _compare_summaries(before, after, form: str, root) -> list[Fail]:
                 "names-resolve",
                 f"{form}:{kind}",
                 f"{form} form: names resolve differently after reload at {'.'.join(path)}: before {_short(a, root)} / after {_short(b, root)}",
+                {"before": a, "after": b},
             )
         )
     return fails
@@ -497,7 +520,7 @@ def _check_cli(case, observe=None) -> list[Fail]:
                     if observe is not None:
                         observe["skip"] = "not-importable"
                     return []
-                info = G.render_package(pkg, root / f"p{i}", style=case.get("parser"), name=name)
+                info = G.render_package(pkg, root / f"p{i}", style=case.get("parser"), name=name, steer=case.get("steer", ()))
                 search += info["search_paths"]
             # reference: an identically configured loader (what _griffe.cli._load_packages builds)
             loader = griffe.GriffeLoader(
@@ -652,11 +675,27 @@ def _known_parsed_sections(case, fail: Fail) -> bool:
     return bool(case.get("parser")) and fail.clause == "identical-json" and fail.kind.startswith("full:") and "docstring.parsed" in fail.kind
 
 
+def _known_init_param_names(case, fail: Fail) -> bool:
+    """Instance attributes assigned in `__init__` are built in the scope of the `__init__` function, where a name equal to
+    one of its parameters resolves to `Class(param)`; the reloaded attribute is attached to the class. Only names whose
+    original resolution has that `path(name)` form may differ."""
+    import re
+
+    if fail.clause != "names-resolve" or not isinstance(fail.detail, dict):
+        return False
+    before, after = fail.detail.get("before"), fail.detail.get("after")
+    if not isinstance(before, list) or not isinstance(after, list) or len(before) != len(after):
+        return False
+    diffs = [(x, y) for x, y in zip(before, after) if x != y]
+    return bool(diffs) and all(re.fullmatch(r"(\w+)->[\w.]+\(\1\)", x) for x, _ in diffs)
+
+
 # slug -> what the generator / comparison does while the finding is listed
 STEERING: dict = {
     "parsed-sections": "full-form identity is compared modulo docstring.parsed when a docstring parser is selected",
+    "init-param-names": "`__init__` parameters are renamed so that no expression of an instance attribute mentions one",
 }
-KNOWN: dict = {"parsed-sections": _known_parsed_sections}
+KNOWN: dict = {"parsed-sections": _known_parsed_sections, "init-param-names": _known_init_param_names}
 
 
 def strategy(ctx):
